@@ -611,7 +611,7 @@ class Classes:
         if t[0] == "index":
             return all(self.valued(c) for c in ch)
         if t[0] == "slice":
-            return self.valued(ch[0])
+            return all(self.valued(c) for c in ch)      # value only when every present bound is known
         return False
 
     def is_str(self, e):
@@ -988,7 +988,7 @@ def judge(prog, out, chk, findings, stats):
     fails = []
     orc = Oracle(prog)
     cls = Classes(prog, out)
-    known = {f["id"] for f in findings if f.get("status") == "known"}
+    known = {f["id"] for f in findings if f.get("status") == "known"} - REPAIRED
     decl = {n: (a, e) for n, a, e in prog}
     # which decl does each IndexError / ValueError diagnostic belong to? the checker reports them while
     # evaluating the first not-yet-evaluated const that needs the failing one: attribute by re-deriving
@@ -1067,6 +1067,10 @@ def check_trees(prog, out):
     return all(got.get(n) == sx(e) for n, _, e in prog)
 
 
+# findings repaired in /repo (fix commits c63554f, 6af2ac2): their classes suppress nothing any more, whatever
+# known_findings.json says; their witnesses stay in the case stream as regression inputs
+REPAIRED = {"slice-bound-unvalued", "hetero-collection"}
+
 WITNESSES = {
     "slice-bound-unvalued": [(0, "str", node(("index",), node(("slice", True, True, True), lit("str", "abcdef"), lit("int", 4), lit("int", 1),
                                                         node(("bin", "-"), lit("int", 0), lit("int", 1))), lit("int", 0)))],
@@ -1103,6 +1107,7 @@ def run(chk):
         "fragment: None literals, the `expected` type for EMPTY annotated collections, duplicate const names and Named(\"FrozenStr\") spellings are outside the model (never generated)",
         "slice loops are modelled over Z; since fix d68de38 the real helper stops when the index leaves i64, which is the Z behaviour (before it, |step| > MAX - len was C05's finding slice-step-overflow: a debug-built compiler panicked on such a const; that class is still recognised and attributed to C05)",
         "the error half of the link stateful evaluator = pure evaluator is checked behaviourally on every generated program (render_pure), the success half is a theorem",
+        "repaired and now guarded by regression witnesses (a `fixed` finding suppresses nothing): slice-bound-unvalued (a slice with a present bound of unknown value publishes no value), hetero-collection (every list/set/dict element is compared with the first one's type)",
         "const-nonconst-call (`const X: int = 7 // 2` emitted as a non-const fn call) is a C02 defect: such a const never holds a value, so C06 has nothing to compare; the generator of the build tier stays inside the buildable fragment",
         "frozen collection VALUES are compared by execution only (thorough tier)",
     ]
@@ -1265,7 +1270,7 @@ def run(chk):
 
     # ---- known findings: replay the witnesses
     for f in chk.findings:
-        if f.get("status") != "known" or f["id"] not in WITNESSES:
+        if f.get("status") != "known" or f["id"] not in WITNESSES or f["id"] in REPAIRED:
             continue
         idx = [k for k, _ in progs].index("witness:" + f["id"])
         if witness_reproduces(f["id"], impl[idx]):
